@@ -32,6 +32,10 @@ func runC02(c *Ctx) {
 	c.withOnly(map[string]string{"C12.2-census-live-pods-only": "C02.8-revision-counters-leave-out-terminating-pods"}, nil, "C02.8-census-revision-counters", 2, func() { runC12(c) })
 	// "failed or succeeded pods inside the desired set": the reconcile can replace them only if it is handed them, so the
 	// claim keeps every pod that is a member by name, whatever its phase (the filter rule of C10.1, as a clause of this property)
+	// "from then on a reconcile issues no write": the revisions this pass has chosen are not what it then trims away -- a
+	// chosen revision that is deleted at the end of the pass is made again by the next one, and so on for ever (the
+	// live-set rule of C13, as a clause of this property)
+	c.withOnly(map[string]string{"C13.1-live-current-and-update": "C02.10-chosen-revisions-survive-the-truncation"}, nil, "C02.10-live-set", 2, func() { runC13(c) })
 	c.withOnly(map[string]string{"C10.1-membership-filter": "C02.9-every-member-is-claimed"}, nil, "C02.9-claim-filter", 1, c.claimConstruction)
 	c.quiescencePossible()
 	c.statusWriteGuard()
